@@ -707,7 +707,7 @@ class Predicate(metaclass=abc.ABCMeta):
                     if k in left and k in right and hash(left[k]) != hash(right[k])
                     else left[k]
                     if k in left
-                    else right
+                    else right[k]
                     for k in left.keys() | right.keys()
                 )
             )
